@@ -165,6 +165,25 @@ Proof.
     + apply IH; [assumption | reflexivity].
 Qed.
 
+(* a sequence of forest passes *)
+Fixpoint run_forest (fs : list (expr -> option expr)) (ds : list (def F)) : option (list (def F)) :=
+  match fs with
+  | [] => Some ds
+  | f :: r => match transform_forest f ds with Some ds' => run_forest r ds' | None => None end
+  end.
+
+Theorem run_forest_sound_l : forall (P : env -> Prop) fs,
+  (forall en name shape vals, P en -> P (bind en name shape vals)) ->
+  Forall (fun f => forall en, P en -> sound_in en f) fs ->
+  forall ds ds' en, P en -> run_forest fs ds = Some ds' ->
+  eval_defs en ds' = eval_defs en ds.
+Proof.
+  intros P fs Hbind Hfs. induction Hfs as [|f r Hf Hr IH]; intros ds ds' en HP H; simpl in H.
+  - inversion H. reflexivity.
+  - destruct (transform_forest f ds) as [d1|] eqn:E; [|discriminate].
+    rewrite (IH d1 ds' en HP H). apply (transform_forest_sound_l P f Hbind Hf ds d1 en HP E).
+Qed.
+
 (* ---- add_helper_defs_sound ------------------------------------------------------------------------ *)
 Lemma eval_defs_app : forall ds1 ds2 (en : env), eval_defs en (ds1 ++ ds2) = eval_defs (eval_defs en ds1) ds2.
 Proof.
